@@ -939,7 +939,7 @@ func (fr *Frame) execTypeAssert(ins *ssa.TypeAssert) {
 	}
 	ok = tEq(tag, tInt(int64(te.TypeTag(at))))
 	v = te.Unbox(at, pay)
-	if fr.vc.sess.yamlTree {
+	if _, boxedHere := ins.X.(*ssa.MakeInterface); fr.vc.sess.yamlTree && !boxedHere {
 		// values of a decoded YAML tree: an interface never holds a typed-nil map or slice (listed assumption)
 		switch at.Underlying().(type) {
 		case *types.Map:
